@@ -148,6 +148,11 @@ def run(R, only=None):
         "leaf serialisers as oracle; C18_position_oracle: strictness of the codec part's `dumps` is the visible premise",
         "a file-object sink is positioned at its end (opened 'wb' on a new file or 'ab' on an existing one)",
     ]
+    # the translated source (harness/callgraph.py): dump() split at _save
+    from props import c02 as C02
+    cg = C02.callgraph(R)
+    if cg is not None:
+        R.notes["callgraph_dump"] = {k: cg[k] for k in ("dump_entries", "dump_reachable", "dump_effects_reachable")}
     ok = R.prove("C18")
     cases = only if only is not None else make_cases(R)
     batches = [cases[i:i + 40] for i in range(0, len(cases), 40)]
